@@ -7,6 +7,7 @@ constraint function and the callback are spies that append to the log of the
 current ``ctx.Run`` *before* and after invoking the underlying function.
 """
 import functools
+import inspect
 import hashlib
 import math
 import struct
@@ -102,6 +103,11 @@ def base_objective(o, n):
         a = arr(o["a"])
         c = arr(o["c"])
         return lambda x: float(np.sum(np.sin(a * x)) + 0.5 * (x - c) @ (x - c))
+    if kind == "plateau":
+        c = arr(o["c"])
+        r = float(o["r"])
+        return lambda x: float(max(0.0, float(np.linalg.norm(x - c)) - r)
+                               ** 2)
     raise ValueError(kind)
 
 
@@ -388,9 +394,27 @@ def make_callback(cb):
             f = other
         else:
             f = core_pos
+    if form == "unhashable":
+        f = _unhashable(f)
     if cb.get("returns") is not None:
         f = _returning(f, cb["returns"])
     return f, state
+
+
+def _unhashable(f):
+    """A perfectly valid callback object that cannot be hashed (a list
+    subclass with __call__, like a default dataclass with eq=True)."""
+    params = list(inspect.signature(f).parameters)
+
+    if params == ["intermediate_result"]:
+        class ListCB(list):
+            def __call__(self, intermediate_result):
+                return f(intermediate_result)
+    else:
+        class ListCB(list):
+            def __call__(self, xk):
+                return f(xk)
+    return ListCB([1, 2, 3])
 
 
 RETURNS = {"True": True, "np_true": np.bool_(True), "one": 1, "str": "stop",
